@@ -99,6 +99,10 @@ func vfNewWorld(t *testing.T, prop, tier string, tape *vfTape) *vfWorld {
 	tr.DisableKeepAlives = true
 	tr.Proxy = nil
 	tr.TLSClientConfig = nil
+	if os.Getenv("VERIF_LOG") == "" {
+		logger.SetOutput(io.Discard)
+		logger.SetErrOutput(io.Discard)
+	}
 	vfCurrentWorld = w
 	vfTheWatcher.reset()
 	w.watch = vfTheWatcher
